@@ -280,6 +280,10 @@ func corpusScale(c *vrep.Ctx, prop string) {
 	if c.Thorough() {
 		contexts = append(contexts, c07Context{200, 5, true}, c07Context{7, 0, true}, c07Context{1, 1, true})
 	}
+	if c.Param("contexts", "") == "huge" {
+		// unrelated blocks many times larger than the text (the target is then sparse in hits)
+		contexts = []c07Context{{10000, 5000, true}, {30000, 0, true}, {0, 30000, true}}
+	}
 	seen := map[string]bool{}
 	body := func(r *vx.Run) {
 		cs := vChooseCorpusCase(r, docs, fams)
